@@ -528,7 +528,7 @@ def run_c23(pid, tier, replay):
         nschema = _check_schema(binary, schema[0])
         for (name, *_), (cf, _seen, _r, _s) in zip(ff_runs, ff_res):
             casefiles["ff" + name] = cf
-        nlay = _sample_layouts([lay[n][0] for n in lay], 40 if tier == "quick" else 500, rng, os.path.join(wd, "layouts_c23.jsonl"))
+        nlay = _sample_layouts([lay[n][0] for n in lay], 40 if tier == "quick" else 800, rng, os.path.join(wd, "layouts_c23.jsonl"))
         casefiles["lay"] = os.path.join(wd, "layouts_c23.jsonl")
         gen_info = {"ff": {n[0]: len(r[1]) for n, r in zip(ff_runs, ff_res)}, "layouts_sampled": nlay,
                     "layouts_generated": {n: lay[n][1] for n in lay}, "line_tables_checked": nlines, "schema_fields_checked": nschema}
@@ -570,6 +570,9 @@ def run_c23(pid, tier, replay):
         for v in verdict.violations:
             print("REPLAY-MISMATCH %s %s" % (v["class"], v["detail"][:300]))
         return 1 if verdict.violations else 0
+    if tier == "thorough" and (acc["ExtraOptionLocs"] <= 0 or acc["ExtraComments"] <= 0 or acc["MultiLineSpans"] <= 0):
+        raise vf.MachineryError("vacuous run: the extended modes added %d locations / %d comments, %d multi-line spans"
+                                % (acc["ExtraOptionLocs"], acc["ExtraComments"], acc["MultiLineSpans"]))
     selftest = _c23_selftest(wd, chunks[0])
     _t("selftest", t0)
     states = vstates + sum(r[2].distinct or len(r[1]) for r in ff_res) + sum(lay[n][2].distinct or lay[n][1] for n in lay) + lines_r.distinct
